@@ -5,7 +5,8 @@ From Qv Require Import Common.Bytes Gen.GenMx Model.Mx Model.MxRoute Model.MxDns
   Spec.MxSpec Spec.MxRouteSpec Spec.MxDnsSpec
   Gen.GenNetio Gen.GenQremote Gen.GenStarttls Model.NetRead Model.TlsClient Model.QrConnect Model.MxConnect Spec.MxConnectSpec
   Proofs.MxSortProofs Proofs.MxConnProofs Proofs.MxFilterProofs Proofs.MxRouteProofs Proofs.MxDnsProofs
-  Proofs.QrConnectProofs Proofs.MxConnectProofs Proofs.MxSortComplete.
+  Proofs.QrConnectProofs Proofs.MxConnectProofs Proofs.MxSortComplete
+  Model.InetPton Model.InetPtonVal Model.MxRouteKeys Spec.MxRouteKeysSpec Proofs.InetPtonValProofs Proofs.MxRouteKeysProofs.
 Import ListNotations.
 
 (** sortmx (with fixes/C20-sortmx-v6first.diff applied): for every non-empty list of MX entries
@@ -155,6 +156,116 @@ Theorem C20_main : forall cfg tab flag recs (remhost : bytes) gia ifs cs0 oracle
             /\ main_ok cfg tab flag recs remhost gia ifs oracle n r.
 Proof. exact qremote_main_correct. Qed.
 Print Assumptions C20_main.
+
+(* ---------------------------------------------------------------------------------------------
+   All keys of a smtproutes.d file and address literals (Model/MxRouteKeys.v; doc/man/Qremote.8). *)
+
+(** the value-producing model of glibc's inet_pton yields an address exactly when C14's validity model
+    (proved equivalent to the textual grammar in Proofs/LiteralEquiv.v) accepts the text *)
+Theorem C20_inet_pton_value : forall s,
+  is_some (pton4_val s) = pton4_ref s /\ is_some (pton6_val s) = pton6_ref s.
+Proof. intros s. split; [apply pton4_val_valid|apply pton6_val_valid]. Qed.
+Print Assumptions C20_inet_pton_value.
+
+(** smtproute() with all keys, for every configuration, certificate-file oracle and target name <= 254 octets:
+    no crash, and the answer — relay, port, whether the relay entry is named, expect_tls, certificate, key,
+    outgoing addresses, or the error class — is [route_ref_x]: "Only values from one file are considered":
+    the first existing file in the documented order decides everything, control/smtproutes otherwise *)
+Theorem C20_route_keys_order : forall (cfg : route_cfg) (ke : key_env) (remhost : bytes),
+  length remhost <= 254 -> smtproute_x cfg ke remhost = Ok (route_ref_x cfg ke remhost).
+Proof. exact smtproute_x_order. Qed.
+Print Assumptions C20_route_keys_order.
+
+(** ... and it extends the relay/port statement C20_route_order: forgetting the settings gives the same answer *)
+Theorem C20_route_keys_erase : forall cfg ke h,
+  route_ref cfg h <> RouteOther -> erase_x (route_ref_x cfg ke h) = route_ref cfg h.
+Proof. exact route_ref_x_erase. Qed.
+Print Assumptions C20_route_keys_erase.
+
+(** what a file whose keys all pass leaves behind / what it takes to pass (missing key: setting untouched;
+    clientcert, clientkey: readable files; expect_tls: clientcert in a non-default file; outgoingip: dotted quad,
+    stored v4-mapped — an IPv6 text is an error; outgoingip6: IPv6 text that is not v4-mapped) *)
+Theorem C20_route_keys_meaning : forall ke d mask lines s,
+  eval_keys ke d mask lines = inr s ->
+  s_cert s = key_value mask lines 2 /\ s_key s = key_value mask lines 3
+  /\ (forall f, key_value mask lines 2 = Some f -> mem_bytes f (k_readable ke) = true)
+  /\ (forall f, key_value mask lines 3 = Some f -> mem_bytes f (k_readable ke) = true)
+  /\ s_expect_tls s = (match key_value mask lines 2 with Some _ => negb d | None => false end)
+  /\ (key_value mask lines 4 = None -> s_oip s = None)
+  /\ (forall t, key_value mask lines 4 = Some t ->
+        pton4_ref t = true /\ exists q, pton4_val t = Some q /\ s_oip s = Some ([0; 0; 0; 0; 0; 0; 0; 0; 0; 0; 255; 255]%N ++ q))
+  /\ (key_value mask lines 5 = None -> s_oip6 s = None)
+  /\ (forall t, key_value mask lines 5 = Some t ->
+        pton6_ref t = true /\ exists a, pton6_val t = Some a /\ is_v4mapped a = false /\ s_oip6 s = Some a).
+Proof. exact eval_keys_ok. Qed.
+Print Assumptions C20_route_keys_meaning.
+
+(** an invalid value is an ERROR (err_confn: Qremote terminates), never ignored; the error reported is that of
+    the first offending key in the order clientcert, clientkey, outgoingip, outgoingip6 *)
+Theorem C20_route_keys_errors : forall ke d mask lines,
+  match eval_keys ke d mask lines with
+  | inl c =>
+      (c = F_CERT /\ check_file ke (key_value mask lines 2) F_CERT = Some F_CERT)
+      \/ (c = F_KEY /\ check_file ke (key_value mask lines 2) F_CERT = None /\ check_file ke (key_value mask lines 3) F_KEY = Some F_KEY)
+      \/ (c = F_OIP /\ check_file ke (key_value mask lines 2) F_CERT = None /\ check_file ke (key_value mask lines 3) F_KEY = None
+          /\ check_oip (key_value mask lines 4) = inl F_OIP)
+      \/ ((c = F_OIP6 \/ c = F_OIP6_V4) /\ check_file ke (key_value mask lines 2) F_CERT = None
+          /\ check_file ke (key_value mask lines 3) F_KEY = None /\ (exists o, check_oip (key_value mask lines 4) = inr o)
+          /\ check_oip6 (key_value mask lines 5) = inl c)
+  | inr _ => True
+  end.
+Proof. exact eval_keys_error_order. Qed.
+Print Assumptions C20_route_keys_errors.
+
+(** duplicate keys (the man page: "forbidden"): the code rejects the later line only (logged as invalid entry,
+    dropped), keeps using the file, and the value of the FIRST line counts *)
+Theorem C20_route_duplicate_keys :
+  (forall mask line i, validroute [] line = Some [i] -> In i mask -> validroute mask line = None)
+  /\ (forall line rest i v,
+        validroute [] line = Some [i] -> line = nth i ROUTE_TAGS [] ++ EQSIGN :: v ->
+        let '(mask, lines) := load_valid [] (line :: rest) in key_value mask lines i = Some v).
+Proof. split; [exact validroute_duplicate|exact first_value_wins]. Qed.
+Print Assumptions C20_route_duplicate_keys.
+
+(** "clientkey: if not given clientcert is used" *)
+Theorem C20_route_key_name : forall s,
+  key_name s = match s_key s, s_cert s with
+               | Some k, _ => k
+               | None, Some c => c
+               | None, None => if s_defkey s then ROUTE_DEFAULT_KEY else ROUTE_DEFAULT_CERT
+               end.
+Proof. exact key_name_rule. Qed.
+Print Assumptions C20_route_key_name.
+
+(** an address literal "[text]" as target is accepted exactly for an IPv6 text or a dotted quad; then
+    smtproutes.d, smtproutes and DNS are not consulted whatever they contain: one unnamed entry with that
+    address, port 25, no settings; a malformed literal is "Z4.3.0 parse error in first argument" *)
+Theorem C20_target_literal :
+  (forall inner, (exists a, target_literal (LBRACKET :: inner ++ [RBRACKET]) = Some (Some a))
+                 <-> pton6_ref inner || pton4_ref inner = true)
+  /\ (forall cfg tab flag recs remhost a, target_literal remhost = Some (Some a) ->
+        getmxlist_x cfg tab flag recs remhost = Ok (GList [mkmx 0 253 [a]] DEFAULT_PORT))
+  /\ (forall cfg tab flag recs remhost, target_literal remhost = Some None ->
+        getmxlist_x cfg tab flag recs remhost = Ok (GDie 3))
+  /\ (forall cfg tab flag recs remhost, target_literal remhost = None ->
+        getmxlist_x cfg tab flag recs remhost = getmxlist cfg tab flag recs remhost).
+Proof.
+  split; [exact target_literal_accepts|]. split; [exact literal_skips_routes|]. split; [exact literal_malformed|exact nonliteral_same].
+Qed.
+Print Assumptions C20_target_literal.
+
+(** the two rules as they were before fixes/C20-relay-literal-name.diff and fixes/C20-default-clientkey.diff *)
+Theorem C20_relay_literal_name :
+  relay_named_old W_host4 [W_v4] = true
+  /\ forall host al, pton6_ref host || pton4_ref host = true -> relay_named host al = false.
+Proof. exact relay_literal_name_old_vs_fixed. Qed.
+Print Assumptions C20_relay_literal_name.
+
+Theorem C20_default_clientkey : forall cfg ke,
+  dir_exists cfg = true -> k_defkey ke = true ->
+  key_name (line_settings_old cfg ke) = ROUTE_DEFAULT_CERT /\ key_name (line_settings cfg ke) = ROUTE_DEFAULT_KEY.
+Proof. exact default_key_old_vs_fixed. Qed.
+Print Assumptions C20_default_clientkey.
 
 (* ---------------------------------------------------------------------------------------------
    The last clause: connect_mx() over the real tryconn() (Model/MxConnect.v = QrConnect's transcription
